@@ -341,6 +341,8 @@ PROPS = {
         "assumptions": ["partial: 'as the kernel reports them' is an external input; volatile lines of /proc/<tid>/status (State, TracerPid, context-switch counters, pending signals) are masked"],
         "explanation": "C18 theorems: memory-info entry per map line (range, 8-row protection table, private/shared type); direct auxv values are never overridden and unset ones "
                        "are filled by the named /proc pair; the link_map walk returns exactly an acyclic chain in order (and provably never terminates on a cyclic one).",
+        "extra_modules": ["MdwModel.Theorems.LinkName"],
+        "extra_theorems": ["LinkName_source_agrees", "LinkName_null", "LinkName_get"]
     },
     "C02": {
         "rule": "hostile inputs: 10⁴ / 10⁵ generated file names through the real SoVersion::parse (pieces incl. non-ASCII characters after digits, '+', overflowing numbers, "
@@ -351,14 +353,14 @@ PROPS = {
                 "Distinct = distinct (kind, scenario, outcome) / parsed versions. Hostile linker data also with program-header counts beyond what an ELF header can announce (65535 … 74000) over a 4 MiB readable region. Generated modules with a note segment that ends in the middle of the build-id note. A case that does not come back within 45 s ends the run (HANG <case id>) and is reported as a violation with that case as replay.",
         "expected_tags": ["sover", "sover.some", "sover.nonascii", "dso.cyclic", "dso.rho", "dso.rho-long", "dso.tail-selfloop", "dso.mulphnum", "dso.dyn-short", "dso.linkmap-short", "dso.vaddr-underflow", "files.devshm-nonelf",
                           "files.sysv-name", "files.sover-name", "dump", "crash.ip.top", "crash.sp.top"],
-        "extra_theorems": ["C12_total", "C06_total", "C06_walk_total", "C18_walk_cycle_diverges", "System_settled", "gatherStack_settled", "gatherThread_settled", "gatherApp_settled", "C13_layout", "System_settled_of_map"],
+        "extra_theorems": ["C12_total", "C06_total", "C06_walk_total", "C18_walk_cycle_diverges", "System_settled", "gatherStack_settled", "gatherThread_settled", "gatherApp_settled", "C13_layout", "System_settled_of_map", "LinkWalk_source_agrees", "LinkWalk_total"],
         "trusted_base": ["dependency code (procfs-core, goblin, nix, serde_json) is exercised, not modelled: panics inside it found by the live / fuzz runs are reported with a replay",
                          "the dev profile (overflow checks on) is what the checks run; in a release build the same inputs wrap silently"],
         "assumptions": ["'bounded time' is a step bound of the modelled loops plus a wall-clock watchdog on the live runs; the scan of a dynamic section without DT_NULL is bounded only by readable memory"],
         "explanation": "C02 theorems: the repaired link_map walk terminates on every memory (fuel > number of mapped records), evaluated self-loop; no file under /dev is ever opened for a "
                        "mapping; version parser instances incl. the formerly panicking input; imported totality theorems of the sanitiser, stack lookup and guard walk; the unrepaired walk "
                        "provably diverges on a cyclic list. System_settled (Theorems/SystemTotal.lean): the request as one function (Model/System.lean) ends with the content of a dump or an error return for every target state that satisfies the aggregation invariants — stack and instruction pointers anywhere in the 64-bit range, any memory contents and protections, any reads failing or short, any configuration; never a panic, never out of fuel (composes C06_total and C12_total through gatherStack / gatherThread / gatherThreads / gatherApp). System_settled_of_map (Theorems/SystemLayout.lean) discharges the layout hypothesis from the C13 theorems: it holds whenever the mapping list is the aggregation (with the entry-point swap) of a memory map whose lines are ascending, non-empty and do not overlap.",
-        "extra_modules": ["MdwModel.Theorems.SystemTotal", "MdwModel.Theorems.SystemLayout"],
+        "extra_modules": ["MdwModel.Theorems.SystemTotal", "MdwModel.Theorems.SystemLayout", "MdwModel.Theorems.LinkWalk"],
     },
 }
 
